@@ -32,3 +32,36 @@ def sparse_ts(n, k, mmax, slots=4):
         for combo in itertools.combinations(allslots, m):
             flat = [x for e in combo for x in e] + [0] * (3 * (slots - m))
             yield tuple(flat), m
+
+
+def cfg_ts(v, nt, b, pmax, slots=None):
+    """canonical (t, p) for decode_cfg"""
+    slots = slots or pmax
+    bodies = []
+    for ln in range(b + 1):
+        for body in itertools.product(range(v + nt), repeat=ln):
+            bodies.append((ln,) + tuple(body) + (0,) * (b - ln))
+    allp = sorted((h,) + bd for h in range(v) for bd in bodies)
+    for p in range(pmax + 1):
+        for combo in itertools.combinations(allp, p):
+            flat = [x for pr in combo for x in pr] + [0] * ((2 + b) * (slots - p))
+            yield tuple(flat), p
+
+
+def run_sweep(fn, raws, keyf=None, show=30):
+    c = collections.Counter(); ex = {}; n = 0
+    for raw in raws:
+        chx.CHAN.reset()
+        fn(*raw); n += 1
+        for f in chx.CHAN.fails:
+            for fl in f['failures']:
+                key = (fl['kind'], fl.get('op'), fl.get('exc'), fl.get('site'), tuple(fl.get('tags', [])))
+                if keyf:
+                    key = keyf(fl)
+                c[key] += 1
+                ex.setdefault(key, (f['raw'], fl.get('detail')))
+        for e in chx.CHAN.errors:
+            k = ('ORACLE', e['error'][:80]); c[k] += 1; ex.setdefault(k, (e.get('raw'), e['traceback'][-500:]))
+    print(fn.__name__, "evaluated", n)
+    for k, v in c.most_common(show):
+        print(v, k, ex[k])
